@@ -68,39 +68,40 @@ Qed.
 
 (* writing a row, row bookkeeping, evaluating / compiling a formula, calling a function, the for_each
    type check: wrapped wherever they happen *)
+Lemma wrapped_inside_count pre post l e : escape (pre ++ STmplCount :: post) l e = EDGE.
+Proof. apply escape_protected, protected_below. reflexivity. Qed.
+Lemma wrapped_inside_var pre post l e : escape (pre ++ SVarExpr :: post) l e = EDGE.
+Proof. apply escape_protected, protected_below. reflexivity. Qed.
+
 Lemma wrapped_leaf p l e :
-  In l [LWrite; LRowSetup; LEval; LCompile; LFunc; LForEachType] -> escape p l e = EDGE.
+  In l [LWrite; LRowSetup; LEval; LCompile; LFunc; LForEachType; LCtxTmpl; LCtxVar] -> escape p l e = EDGE.
 Proof.
   intros H. apply escape_protected, protected_leaf.
-  cbn in H. destruct H as [H|[H|[H|[H|[H|[H|[]]]]]]]; subst l; reflexivity.
+  cbn in H. destruct H as [H|[H|[H|[H|[H|[H|[H|[H|[]]]]]]]]]; subst l; reflexivity.
 Qed.
 
-Definition transparent_step (s : step) : bool :=
-  match s with SVarExpr | SNested | STmplCount _ => true | _ => false end.
-Definition bare_leaf (l : leaf) : bool :=
-  match l with LCtx | LPost | LLookup | LCountConv => true | _ => false end.
-
-Lemma protected_false_inv p l :
-  protected_path p l = false -> forallb transparent_step p = true /\ bare_leaf l = true.
+(* every path execution can take passes a converting handler: whatever is raised wherever, generate
+   answers with a DataGenError *)
+Lemma rooted_protected p l : rooted p l = true -> protected_path p l = true.
 Proof.
-  unfold protected_path. induction p as [|s p IH]; cbn [frames forallb].
-  - rewrite existsb_app. intros H. apply orb_false_iff in H. destruct H as [H _].
-    split; [reflexivity|]. destruct l; cbn in H; try discriminate; reflexivity.
-  - rewrite existsb_app. intros H. apply orb_false_iff in H. destruct H as [H1 H2].
-    destruct (IH H1) as [Ha Hb]. split; [|exact Hb]. rewrite Ha, andb_true_r.
-    destruct s; cbn in H2; try discriminate; reflexivity.
+  destruct p as [|s p]; cbn [rooted].
+  - intros H. apply protected_leaf. destruct l; try discriminate; reflexivity.
+  - intros H. replace (s :: p) with ([] ++ s :: p) by reflexivity. apply protected_below.
+    destruct s; try discriminate; reflexivity.
 Qed.
 
-(* the only ways out: a top-level `var` / nested template / count chain, and a leaf without a handler *)
-Lemma escape_raw_inv p l e n :
-  escape p l e = EPy n -> forallb transparent_step p = true /\ bare_leaf l = true.
-Proof. intros H. apply protected_false_inv. eapply escape_raw_unprotected; eauto. Qed.
+Lemma escape_rooted p l e : rooted p l = true -> escape p l e = EDGE.
+Proof. intros H. apply escape_protected, rooted_protected, H. Qed.
 
-(* count conversion below handlers only: ValueError / TypeError become a recipe error exactly when the
-   count expression is a SimpleValue *)
-Lemma count_conv_simple_value e :
-  is_value_or_type_error e = true -> escape [STmplCount true] LCountConv e = EDGE.
-Proof. intros H. unfold escape. cbn. rewrite H. reflexivity. Qed.
+(* the converse: an exception can only leave generate unwrapped along a path that cannot occur *)
+Lemma escape_raw_inv p l e n : escape p l e = EPy n -> rooted p l = false.
+Proof.
+  intros H. destruct (rooted p l) eqn:Hr; [|reflexivity].
+  rewrite (escape_rooted p l e Hr) in H. discriminate.
+Qed.
+
+Lemma count_conv_wrapped pre e : escape (pre ++ [STmplCount]) LCountConv e = EDGE.
+Proof. apply escape_protected, protected_below. reflexivity. Qed.
 
 Lemma static_before_rows E ff mf doc dyn e :
   validate E ff mf doc = Err e -> generate E ff mf doc dyn = (Err e, O).
